@@ -58,9 +58,12 @@ impl CloseValue for Marker {
 }
 
 /// Content of a slot.
+#[derive(Debug)]
 pub struct Sub {
     idx: u8,
     v: u64,
+    /// fault injection: `close` panics (the guard then goes away without delivering a value)
+    fault: bool,
 }
 pub struct SubClosed {
     idx: u8,
@@ -76,6 +79,10 @@ impl CloseValue for Sub {
     /// thread is closing its value" (user code, arbitrarily slow).
     fn close(self) -> SubClosed {
         sched::point("h.slot_close", &[self.idx as i64]);
+        if self.fault {
+            // a misbehaving payload: its close panics inside SlotGuard::drop
+            std::panic::resume_unwind(Box::new(CLOSE_FAULT));
+        }
         let us = CLOSE_SPIN_US.load(std::sync::atomic::Ordering::Relaxed);
         if us > 0 {
             let t = Instant::now();
@@ -173,7 +180,7 @@ impl KaEntry for EntryA {
         EntryA {
             ver: VerField(0),
             cnt: Counter::default(),
-            s1: Slot::new(Sub { idx: 1, v: 0 }),
+            s1: Slot::new(Sub { idx: 1, v: 0, fault: false }),
             mid: Marker,
             s2: LazySlot::default(),
         }
@@ -185,7 +192,7 @@ impl KaEntry for EntryA {
         self.cnt.increment();
     }
     fn open(&mut self, s: usize, mode: OnParentDrop) -> Option<SlotGuard<Sub>> {
-        if s == 1 { self.s1.open(mode) } else { self.s2.open(Sub { idx: 2, v: 0 }, mode) }
+        if s == 1 { self.s1.open(mode) } else { self.s2.open(Sub { idx: 2, v: 0, fault: false }, mode) }
     }
     fn wait(&mut self, s: usize) -> Option<Result<Option<u64>, ()>> {
         if s == 1 { Some(wait_slot(&mut self.s1)) } else { None }
@@ -202,7 +209,7 @@ impl KaEntry for EntryB {
             cnt: Counter::default(),
             s1: LazySlot::default(),
             mid: Marker,
-            s2: Slot::new(Sub { idx: 2, v: 0 }),
+            s2: Slot::new(Sub { idx: 2, v: 0, fault: false }),
         }
     }
     fn bump(&mut self) {
@@ -212,7 +219,7 @@ impl KaEntry for EntryB {
         self.cnt.increment();
     }
     fn open(&mut self, s: usize, mode: OnParentDrop) -> Option<SlotGuard<Sub>> {
-        if s == 1 { self.s1.open(Sub { idx: 1, v: 0 }, mode) } else { self.s2.open(mode) }
+        if s == 1 { self.s1.open(Sub { idx: 1, v: 0, fault: false }, mode) } else { self.s2.open(mode) }
     }
     fn wait(&mut self, s: usize) -> Option<Result<Option<u64>, ()>> {
         if s == 2 { Some(wait_slot(&mut self.s2)) } else { None }
@@ -431,6 +438,16 @@ where
         }
     }
     /// Some(-2) = timed out, Some(-1) = the guard went away without a value, Some(v) = value
+    /// the payload of slot guard `s` will panic in its `close`
+    fn arm_fault(&mut self, s: usize) -> bool {
+        if let Some(Obj::S(sg)) = self.objs.get_mut(&key("s", s)) {
+            sg.fault = true;
+            trace::ev(json!({"ev":"Fault","i":s}));
+            true
+        } else {
+            false
+        }
+    }
     fn wait(&mut self, s: usize) -> Option<i64> {
         let o = self.owner()?;
         let v = match o.wait(s)? {
@@ -487,6 +504,7 @@ where
 }
 
 const UNWIND: &str = "ka-unwind";
+const CLOSE_FAULT: &str = "ka-close-fault";
 
 /// Drop one object, logging DropStart / DropEnd; a panic of the code under test is data (returned).
 fn timed_drop<E: KaEntry>(k: &str, i: usize, o: Obj<E>) -> Option<String>
@@ -513,7 +531,8 @@ where
         util::catch(move || drop(o))
     };
     let r = match r {
-        Err(m) if m == UNWIND => Ok(()),
+        // the harness's own panics (unwinding drop, injected close fault) are not panics of the code under test
+        Err(m) if m == UNWIND || m == CLOSE_FAULT => Ok(()),
         x => x,
     };
     if let Err(m) = &r {
@@ -603,7 +622,7 @@ where
                     };
                     true
                 }
-                "Drop" | "DropUnwind" => match w.take(k, i) {
+                "Drop" | "DropUnwind" | "DropFault" => match (op != "DropFault" || w.arm_fault(i)).then(|| w.take(k, i)).flatten() {
                     Some(o) => {
                         let unwind = op == "DropUnwind" || unwind_steps.contains(&(obs.len() as u64));
                         let r = if unwind && in_thread {
@@ -933,6 +952,9 @@ where
 // T: free-running stress
 // ------------------------------------------------------------------------------------------
 
+static OBS_STOP: std::sync::atomic::AtomicBool = std::sync::atomic::AtomicBool::new(false);
+static OBS_STARTED: std::sync::atomic::AtomicU64 = std::sync::atomic::AtomicU64::new(0);
+
 fn run_ops<E: KaEntry>(w: &mut World<E>, ops: &[Value])
 where
     SnapSink: EntrySink<RootMetric<E>>,
@@ -943,7 +965,10 @@ where
         let k = op.get(1).and_then(|v| v.as_str()).unwrap_or("");
         let i = op.get(2).and_then(|v| v.as_u64()).unwrap_or(0) as usize;
         let r = util::catch(std::panic::AssertUnwindSafe(|| match name {
-            "drop" | "dropu" => {
+            "drop" | "dropu" | "dropf" => {
+                if name == "dropf" {
+                    w.arm_fault(i);
+                }
                 if let Some(o) = w.take(k, i) {
                     let _ = timed_drop_how(k, i, o, name == "dropu");
                 }
@@ -975,6 +1000,32 @@ where
             "clone" => {
                 w.clone_handle(i);
             }
+            // Observer: Debug-format a flush guard / a slot guard (which prints its
+            // OnParentDrop::Wait(FlushGuard)) in a loop until the dropping thread says stop.
+            // Formatting must not change anything a drop on another thread observes.
+            "observe" => {
+                OBS_STARTED.fetch_add(1, std::sync::atomic::Ordering::SeqCst);
+                let deadline = Instant::now() + Duration::from_millis(20);
+                let mut n = 0u64;
+                while !OBS_STOP.load(std::sync::atomic::Ordering::SeqCst) && Instant::now() < deadline {
+                    let txt = match w.objs.get(&key(k, i)) {
+                        Some(Obj::G(g)) => format!("{:?}", g),
+                        Some(Obj::S(sg)) => format!("{:?}", sg),
+                        _ => break,
+                    };
+                    std::hint::black_box(txt);
+                    n += 1;
+                }
+                trace::ev(json!({"ev":"Observe","k":k,"i":i,"n":n}));
+            }
+            // wait (bounded) until `i` observers are formatting
+            "waitobs" => {
+                let deadline = Instant::now() + Duration::from_millis(20);
+                while OBS_STARTED.load(std::sync::atomic::Ordering::SeqCst) < i as u64 && Instant::now() < deadline {
+                    std::hint::spin_loop();
+                }
+            }
+            "stopobs" => OBS_STOP.store(true, std::sync::atomic::Ordering::SeqCst),
             "yield" => std::thread::yield_now(),
             "sleep" => std::thread::sleep(Duration::from_micros(i as u64)),
             _ => {
@@ -1004,6 +1055,8 @@ where
         ctrl.free_run();
     }
     CLOSE_SPIN_US.store(sc["close_spin_us"].as_u64().unwrap_or(0), std::sync::atomic::Ordering::Relaxed);
+    OBS_STOP.store(false, std::sync::atomic::Ordering::SeqCst);
+    OBS_STARTED.store(0, std::sync::atomic::Ordering::SeqCst);
     let delay = sc["delay"].as_bool().unwrap_or(false);
     let mut w: World<E> = World::new(delay);
     // sequential prologue in the main thread (creations, early drops, mutations)
